@@ -2,80 +2,32 @@
 From Coq Require Import String List Bool.
 From Verif Require Import Base.Str C03.Model C03.Spec C03.Proofs C03.Corr.
 
-(* C03, soundness with the default only_use_keys_in_metadata = true, NO guard: for every metadata shape
-   (certificates that do not load and KeyDescriptors without certificate included), claimed issuer,
-   embedded KeyInfo, message kind (enveloped / detached) and ideal signature scheme: acceptance needs a
-   certificate that metadata publishes for signing (or with no use) under the claimed issuer; the verifier
-   is only ever handed such certificates. *)
-Theorem c03_sound_default :
+(* C03, soundness: for every metadata shape (certificates that do not load and KeyDescriptors without
+   certificate included), claimed issuer, embedded KeyInfo, flag setting, message kind (enveloped / detached)
+   and ideal signature scheme: acceptance needs a certificate that metadata publishes for signing (or with no
+   use) under the claimed issuer, the embedded certificate only as the explicit opt-in fallback when metadata
+   holds no signing key for that issuer; the verifier is only ever handed such certificates.  No guard. *)
+Theorem c03_sound :
   forall (key cert msg sig : Type) (cert_of : key -> cert) (sign : key -> msg -> sig) (verify : cert -> msg -> sig -> bool)
          (readable blank : cert -> bool),
     (forall c mm ss, verify c mm ss = true <-> exists k, c = cert_of k /\ ss = sign k mm) ->
     (forall k k' mm, sign k mm = sign k' mm -> k = k') ->
-    forall x : input cert msg sig, only_md x = true -> sound cert_of sign x (accept verify readable blank x).
-Proof. exact accept_sound_default. Qed.
-Print Assumptions c03_sound_default.
+    forall x : input cert msg sig, sound cert_of sign blank x (accept verify readable blank x).
+Proof. exact accept_sound. Qed.
+Print Assumptions c03_sound.
 
-(* detached signatures: sound whatever the flag *)
-Theorem c03_sound_detached :
-  forall (key cert msg sig : Type) (cert_of : key -> cert) (sign : key -> msg -> sig) (verify : cert -> msg -> sig -> bool)
-         (readable blank : cert -> bool),
-    (forall c mm ss, verify c mm ss = true <-> exists k, c = cert_of k /\ ss = sign k mm) ->
-    (forall k k' mm, sign k mm = sign k' mm -> k = k') ->
-    forall x : input cert msg sig, detached x = true -> sound cert_of sign x (accept verify readable blank x).
-Proof. exact accept_sound_detached. Qed.
-Print Assumptions c03_sound_detached.
-
-(* C03 in full: soundness (the embedded certificate only as the explicit opt-in fallback when metadata has no
-   signing key for that issuer) outside finding class C03-F2, completeness (a signature by a published
-   signing key is accepted) outside C03-F1 and C03-F2 *)
+(* C03 in full, no guard (the model follows the code repaired by 2dad6239 and a9edf887): soundness as above and
+   completeness -- a signature by a key published for signing under the claimed issuer is accepted, whatever
+   else that issuer publishes.  A certificate that verifies a signature loads. *)
 Theorem c03_trust :
   forall (key cert msg sig : Type) (cert_of : key -> cert) (sign : key -> msg -> sig) (verify : cert -> msg -> sig -> bool)
          (readable blank : cert -> bool),
     (forall c mm ss, verify c mm ss = true <-> exists k, c = cert_of k /\ ss = sign k mm) ->
     (forall k k' mm, sign k mm = sign k' mm -> k = k') ->
-    forall x : input cert msg sig, gspec cert_of sign verify readable blank x (accept verify readable blank x).
+    (forall c mm ss, verify c mm ss = true -> readable c = true) ->
+    forall x : input cert msg sig, spec cert_of sign blank x (accept verify readable blank x).
 Proof. exact trust_holds. Qed.
 Print Assumptions c03_trust.
-
-(* the unguarded specification holds whenever every KeyDescriptor that the claimed issuer publishes for
-   signing carries a certificate that loads; and for enveloped signatures whenever none is without certificate *)
-Theorem c03_trust_usable_md :
-  forall (key cert msg sig : Type) (cert_of : key -> cert) (sign : key -> msg -> sig) (verify : cert -> msg -> sig -> bool)
-         (readable blank : cert -> bool),
-    (forall c mm ss, verify c mm ss = true <-> exists k, c = cert_of k /\ ss = sign k mm) ->
-    (forall k k' mm, sign k mm = sign k' mm -> k = k') ->
-    forall x : input cert msg sig,
-      (forall e c, claimed x = Some e -> published_for_signing (md x) e c -> readable c = true /\ blank c = false) ->
-      spec cert_of sign x (accept verify readable blank x).
-Proof. exact trust_usable_md. Qed.
-Print Assumptions c03_trust_usable_md.
-
-Theorem c03_trust_enveloped :
-  forall (key cert msg sig : Type) (cert_of : key -> cert) (sign : key -> msg -> sig) (verify : cert -> msg -> sig -> bool)
-         (readable blank : cert -> bool),
-    (forall c mm ss, verify c mm ss = true <-> exists k, c = cert_of k /\ ss = sign k mm) ->
-    (forall k k' mm, sign k mm = sign k' mm -> k = k') ->
-    forall x : input cert msg sig,
-      detached x = false -> ~ blank_published blank (md x) (claimed x) -> spec cert_of sign x (accept verify readable blank x).
-Proof. exact trust_enveloped. Qed.
-Print Assumptions c03_trust_enveloped.
-
-(* the guards are needed (the faithful model breaks completeness: C03-F1, C03-F2; and soundness: C03-F2), and
-   every failure of the model lies inside the classes as computed by Corr.in_f1 / Corr.in_f2 *)
-Theorem c03_complete_refuted : exists x, ~ complete icert_of isign x (accept iverify ireadable iblank x).
-Proof. exact complete_refuted. Qed.
-Print Assumptions c03_complete_refuted.
-
-Theorem c03_sound_refuted : exists x, ~ sound icert_of isign x (accept iverify ireadable iblank x).
-Proof. exact sound_refuted. Qed.
-Print Assumptions c03_sound_refuted.
-
-Theorem c03_failures_classified :
-  forall x, spec_b x (accept iverify ireadable iblank x) = false ->
-            in_f1 x (accept iverify ireadable iblank x) || in_f2 x (accept iverify ireadable iblank x) = true.
-Proof. exact model_failures_classified. Qed.
-Print Assumptions c03_failures_classified.
 
 Theorem c03_unknown_issuer :
   forall (cert msg sig : Type) (verify : cert -> msg -> sig -> bool) (readable blank : cert -> bool) (x : input cert msg sig),
@@ -85,27 +37,18 @@ Proof. exact unknown_issuer_rejected. Qed.
 Print Assumptions c03_unknown_issuer.
 
 (* the long-lived receiver: for every initial metadata and every interleaving of verifications, reloads
-   and failed reloads, each verification meets the requirement against the metadata loaded by the last
+   and failed reloads, each verification meets the full requirement against the metadata loaded by the last
    successful (re)load before it *)
 Theorem c03_receiver :
   forall (key cert msg sig : Type) (cert_of : key -> cert) (sign : key -> msg -> sig) (verify : cert -> msg -> sig -> bool)
          (readable blank : cert -> bool),
     (forall c mm ss, verify c mm ss = true <-> exists k, c = cert_of k /\ ss = sign k mm) ->
     (forall k k' mm, sign k mm = sign k' mm -> k = k') ->
+    (forall c mm ss, verify c mm ss = true -> readable c = true) ->
     forall (ops : list (op cert msg sig)) (init : metadata cert) (only : bool),
-      seq_spec (gspec cert_of sign verify readable blank) init only ops (run_ops verify readable blank init only ops).
+      seq_spec (spec cert_of sign blank) init only ops (run_ops verify readable blank init only ops).
 Proof. exact receiver_trust. Qed.
 Print Assumptions c03_receiver.
-
-Theorem c03_receiver_sound_default :
-  forall (key cert msg sig : Type) (cert_of : key -> cert) (sign : key -> msg -> sig) (verify : cert -> msg -> sig -> bool)
-         (readable blank : cert -> bool),
-    (forall c mm ss, verify c mm ss = true <-> exists k, c = cert_of k /\ ss = sign k mm) ->
-    (forall k k' mm, sign k mm = sign k' mm -> k = k') ->
-    forall (ops : list (op cert msg sig)) (init : metadata cert),
-      seq_spec (sound cert_of sign) init true ops (run_ops verify readable blank init true ops).
-Proof. exact receiver_sound_default. Qed.
-Print Assumptions c03_receiver_sound_default.
 
 (* a key withdrawn by a reload stops validating at once, whatever was verified before the reload *)
 Theorem c03_withdrawn_key :
@@ -116,7 +59,7 @@ Theorem c03_withdrawn_key :
     forall (pre : list (op cert msg sig)) (mdx : metadata cert) (post : list (op cert msg sig)) (q : query cert msg sig)
            (k : key) (e : string) (init : metadata cert) (only : bool),
       q_s q = sign k (q_m q) -> q_claimed q = Some e -> only = true ->
-      ~ published_for_signing mdx e (cert_of k) ->
+      ~ published_for_signing blank mdx e (cert_of k) ->
       nth_error (run_ops verify readable blank init only (pre ++ Reload mdx :: Check q :: post)) (nchecks pre) =
         Some (accept verify readable blank (at_md mdx only q))
       /\ fst (accept verify readable blank (at_md mdx only q)) = false.
@@ -125,17 +68,49 @@ Print Assumptions c03_withdrawn_key.
 
 (* the hypotheses of c03_trust / c03_receiver are satisfiable (term algebra) *)
 Theorem c03_instance :
-  forall x : input icert imsg isig, gspec icert_of isign iverify ireadable iblank x (accept iverify ireadable iblank x).
+  forall x : input icert imsg isig, spec icert_of isign iblank x (accept iverify ireadable iblank x).
 Proof. exact instance_trust. Qed.
 Print Assumptions c03_instance.
 
+(* ---- the code before the repairs (Model.accept_v0) ---- *)
+(* C03-F1 (repaired by 2dad6239): an unreadable certificate ahead of the signer's one made a correctly signed
+   Redirect request fail *)
+Theorem c03_v0_complete_refuted :
+  exists x, ~ complete icert_of isign iblank x (accept_v0 iverify ireadable iblank x).
+Proof. exact v0_complete_refuted. Qed.
+Print Assumptions c03_v0_complete_refuted.
+
+(* C03-F2 (repaired by a9edf887): a KeyDescriptor without certificate made the fallback trust the embedded
+   certificate although metadata holds a key for the issuer, and lost the issuer's keys under the default flag *)
+Theorem c03_v0_sound_refuted :
+  exists x, ~ sound icert_of isign iblank x (accept_v0 iverify ireadable iblank x).
+Proof. exact v0_sound_refuted. Qed.
+Print Assumptions c03_v0_sound_refuted.
+
+Theorem c03_v0_complete_refuted_f2 :
+  exists x, only_md x = true /\ ~ complete icert_of isign iblank x (accept_v0 iverify ireadable iblank x).
+Proof. exact v0_complete_refuted_f2. Qed.
+Print Assumptions c03_v0_complete_refuted_f2.
+
+(* Corr.cls puts the pre-fix outputs into classes 1 / 2 (a regression is reported with its class); the repaired
+   model meets the specification on the same inputs *)
+Theorem c03_v0_classified :
+  let a0 := accept_v0 iverify ireadable iblank in
+  let a := accept iverify ireadable iblank in
+  (spec_b f1_witness (a0 f1_witness) = false /\ in_f1 f1_witness (a0 f1_witness) = true /\ spec_b f1_witness (a f1_witness) = true)
+  /\ (spec_b f2_witness (a0 f2_witness) = false /\ in_f2 f2_witness (a0 f2_witness) = true /\ spec_b f2_witness (a f2_witness) = true)
+  /\ (spec_b f2_witness_default (a0 f2_witness_default) = false /\ in_f2 f2_witness_default (a0 f2_witness_default) = true
+      /\ spec_b f2_witness_default (a f2_witness_default) = true).
+Proof. exact v0_refutations_classified. Qed.
+Print Assumptions c03_v0_classified.
+
 (* the boolean spec evaluated on the implementation's observations is the stated spec, per verification
    and over the whole life of a receiver *)
-Theorem c03_spec_reflect : forall x out, spec_b x out = true <-> spec icert_of isign x out.
+Theorem c03_spec_reflect : forall x out, spec_b x out = true <-> spec icert_of isign iblank x out.
 Proof. exact spec_b_iff. Qed.
 Print Assumptions c03_spec_reflect.
 
 Theorem c03_holds_reflect :
-  forall c, holds c = true <-> seq_spec (spec icert_of isign) (c_md c) (c_only c) (c_ops c) (c_outs c).
+  forall c, holds c = true <-> seq_spec (spec icert_of isign iblank) (c_md c) (c_only c) (c_ops c) (c_outs c).
 Proof. exact holds_iff. Qed.
 Print Assumptions c03_holds_reflect.
